@@ -213,7 +213,20 @@ func cmdCheck(args []string) int {
 	}
 	genS := time.Since(t0).Seconds() - loadS
 	solveAll(all, workDir, secs, 16)
-	if n := retryFailed(all, workDir, secs); n > 0 {
+	// obligations recorded as open known findings are expected to fail: no second, longer attempt
+	openKnown := map[string]bool{}
+	for _, k := range loadKnownFindings() {
+		if k.Status == "open" {
+			openKnown[k.Obligation] = true
+		}
+	}
+	var retry []*Obligation
+	for _, o := range all {
+		if !openKnown[o.ID] {
+			retry = append(retry, o)
+		}
+	}
+	if n := retryFailed(retry, workDir, secs); n > 0 {
 		notes = append(notes, fmt.Sprintf("%d obligations discharged only on the second (sequential, longer limit) attempt", n))
 	}
 	// informational reachability of returns: reported, never part of the verdict
